@@ -26,6 +26,8 @@ def plan(tier):
         shards.append(("fetch", blk))
     for k in range(4):
         shards.append(("xiset", k))
+    for k in range(8):
+        shards.append(("ctxhist", k))
     return {
         "shards": shards,
         "rule": "Thumb-16: every halfword x IT context x carry: decode + from_bitarray vs table (class, every operand); "
@@ -47,6 +49,8 @@ def run_shard(arg):
         t32(res, *arg[1:])
     elif arg[0] == "xiset":
         xiset(res, arg[1])
+    elif arg[0] == "ctxhist":
+        ctxhist(res, arg[1])
     else:
         fetch(res, arg[1])
     return res.as_dict()
@@ -80,6 +84,43 @@ def t32(res, cube, it, carry, ver, cap):
     if t.words + t.capped_words != 1 << (32 - bin(cube[0]).count("1")):
         res.fail("engine: tiling", "leaves of cube %r do not add up" % (cube,))
     res.sample({"cube": [hex(cube[0]), hex(cube[1])], "it": it, "carry": carry, "leaves": t.leaves})
+
+
+def ctxhist(res, k):
+    """Decode through emulate_cycle() depends on the IT position and the carry flag of THIS step only: every harvested
+    Thumb word is stepped on one long-lived processor under context A and then under context B (all ordered pairs of
+    {outside IT, last in an IT block} x {C=0, C=1}); the result under B must equal the result on a processor that has
+    never seen the word (differential oracle)."""
+    ctxs = [(0x00, 0b0000), (0x00, 0b0010), (0xE8, 0b0000), (0xE8, 0b0010)]
+    shared = sweep.Env("mpu-off", {"arch_version": 7})
+    base = shared.base("svc", "ram")
+    words = isa.harvest_words(True)
+    for wi, (t, olen, w, cname) in enumerate(words):
+        if wi % 8 != k:
+            continue
+        ref = {}
+        for c in ctxs:
+            fresh = sweep.Env("mpu-off", {"arch_version": 7})
+            out = sweep.step_word(fresh, fresh.base("svc", "ram"), w, True, olen, c[0], nzcv=c[1])
+            ref[c] = (out[:3], fresh.plan.regs(), fresh.plan.mem())
+        for a in ctxs:
+            for b in ctxs:
+                if a == b:
+                    continue
+                sweep.step_word(shared, base, w, True, olen, a[0], nzcv=a[1])
+                out = sweep.step_word(shared, base, w, True, olen, b[0], nzcv=b[1])
+                res.cases += 1
+                res.transitions += 2
+                res.add_state(hash((w, a, b)))
+                got = (out[:3], shared.plan.regs(), shared.plan.mem())
+                res.outcome("context-history")
+                if got != ref[b]:
+                    d = shared.plan.diff((ref[b][1], ref[b][2]), (got[1], got[2]))
+                    res.fail("%s result depends on the context of an earlier execution of the same word" % cname,
+                             "word %#x stepped with (ITSTATE, NZCV)=%r after %r: fresh-processor->history %s %s" % (
+                                 w, b, a, "" if got[0] == ref[b][0] else "%r->%r" % (ref[b][0], got[0]), machine.fmt_diff(d)),
+                             {"word": w, "olen": olen, "first": list(a), "second": list(b)})
+    res.sample({"context_history_words": len(words) // 8})
 
 
 def xiset(res, k):
